@@ -25,73 +25,16 @@ import PandoraModel.Properties.C19C05
 import PandoraModel.Properties.C20
 
 namespace Pandora.C19C20
-open Pandora Pandora.Config Pandora.Margins Pandora.Save Pandora.Generated.Schemas
+open Pandora Pandora.Config Pandora.Margins Pandora.Save Pandora.SaveConfig Pandora.Generated.Schemas
 open Pandora.C19C05
 
 /-! ### 1. Adapter: the checked pipeline as C20's `List StepCfg`; `GlobalMargins.to_dict()` -/
-
-/-- an integer parameter (Python: a bool is an integer); `d` when absent or not an integer -/
-def intOfJ (d : Int) : Option JVal → Int
-  | some v => (intOf? v).getD d
-  | none => d
-
-/-- a numeric parameter as an exact rational; `d` when absent, not a number, or not finite -/
-def ratOfJ (d : Rat) : Option JVal → Rat
-  | some (.int i) => i
-  | some (.bool b) => if b then 1 else 0
-  | some (.float (.num q)) => q
-  | _ => d
-
-def strOfJ : Option JVal → String
-  | some (.str s) => s
-  | _ => ""
-
-/-- what a check callback knows about a step when it registers the margins (`Margins.StepCfg`), read off
-    the step's *checked* dictionary — the instance attributes `_window_size`, `_filter_size`,
-    `_sigma_space`, `cfg["step"]` are set from the dictionary `check_conf` returned; the defaults are those
-    of `StepCfg` (a parameter the class does not have).  `method` is read by the margin formulas for
-    filter steps only. -/
-def stepCfgOfJ (n : String) (v : JVal) : StepCfg :=
-  match v with
-  | .obj cfg =>
-    { name := n, method := strOfJ (Dict.lookup cfg "filter_method"),
-      windowSize := intOfJ 5 (Dict.lookup cfg "window_size"),
-      filterSize := intOfJ 3 (Dict.lookup cfg "filter_size"),
-      sigmaSpace := ratOfJ 6 (Dict.lookup cfg "sigma_space"),
-      stepParam := intOfJ 1 (Dict.lookup cfg "step") }
-  | _ => { name := n }
-
-def stepCfgsOf (M : Dict) : List StepCfg := M.map (fun kv => stepCfgOfJ kv.1 kv.2)
 
 theorem stepCfgOfJ_name (n : String) (v : JVal) : (stepCfgOfJ n v).name = n := by
   cases v <;> rfl
 
 theorem stepCfgsOf_names (M : Dict) : (stepCfgsOf M).map (·.name) = Dict.keys M := by
   simp [stepCfgsOf, Dict.keys, stepCfgOfJ_name]
-
-/-- `Margins.asdict()` -/
-def m4ToJ (m : M4) : JVal :=
-  .obj [("left", .int m.left), ("up", .int m.up), ("right", .int m.right), ("down", .int m.down)]
-
-def mdictToJ (d : MDict) : JVal := .obj (d.map fun e => (e.1, m4ToJ e.2))
-
-/-- `GlobalMargins.to_dict()` -/
-def globalToJ (g : Global) : JVal :=
-  .obj [("cumulative margins", mdictToJ g.cumulatives), ("non-cumulative margins", mdictToJ g.nonCumulatives),
-        ("global margins", m4ToJ g.globalMargins)]
-
-/-- **what the `margins` entry must be**, from the pipeline and the image shape alone (C20's
-    `expectedEntries`, `expectedGlobal`) -/
-def expectedMarginsJ (rows cols : Int) (p : List StepCfg) : JVal :=
-  .obj [("cumulative margins", mdictToJ (expectedEntries .cumulative rows cols p 1)),
-        ("non-cumulative margins", mdictToJ (expectedEntries .nonCumulative rows cols p 1)),
-        ("global margins", m4ToJ (expectedGlobal (expectedEntries .cumulative rows cols p 1)
-                                                  (expectedEntries .nonCumulative rows cols p 1)))]
-
-/-- the machine's `GlobalMargins` after `check_conf` of the checked pipeline `M` (left image `rows × cols`,
-    right image `rows2 × cols2`); `none` = a callback raised while registering a margin -/
-def machineMargins (rows cols rows2 cols2 : Int) (M : Dict) : Option Global :=
-  (checkMargins rows cols rows2 cols2 (stepCfgsOf M) {}).map (·.g)
 
 /-! ### 2. What the schemas enforce on the parameters the margins read -/
 
@@ -426,14 +369,12 @@ def shapeOf (files : Files) (S : Dict) : Option (Nat × Nat) :=
     margins (registered by the check callbacks from the checked steps and the shapes of the two images
     `out` names), `to_dict()`, stored under `margins` as the regenerated `mainFacts` say -/
 def savedFile (files : Files) (out : Dict) : Option Dict :=
-  match sideDict out "left", sideDict out "right", Dict.lookup out "pipeline" with
-  | some L, some R, some (.obj M) =>
+  match sideDict out "left", sideDict out "right" with
+  | some L, some R =>
     match shapeOf files L, shapeOf files R with
-    | some (rows, cols), some (rows2, cols2) =>
-      (machineMargins rows cols rows2 cols2 M).map fun g =>
-        mainSavedDict Pandora.Generated.mainFacts out (globalToJ g)
+    | some (rows, cols), some (rows2, cols2) => savedConfig Pandora.Generated.mainFacts out rows cols rows2 cols2
     | _, _ => none
-  | _, _, _ => none
+  | _, _ => none
 
 /-- `check_conf`, then what `main` saves -/
 def mainConfig (files : Files) (fl : MachineFlags) (user : Dict) (m : CState) : Option Dict :=
@@ -441,14 +382,32 @@ def mainConfig (files : Files) (fl : MachineFlags) (user : Dict) (m : CState) : 
   | .ok (out, _) => savedFile files out
   | .error _ => none
 
+/-- the margins do not read `indicator`: what `run` writes into the pipeline leaves C20's reading unchanged -/
+theorem stepCfgsOf_runPipeline (M : Dict) : stepCfgsOf (runPipeline M) = stepCfgsOf M := by
+  simp only [stepCfgsOf, runPipeline, List.map_map]
+  apply List.map_congr_left
+  intro kv _
+  simp only [Function.comp, runStep]
+  by_cases hcvc : Machine.kindOf kv.1 = "cost_volume_confidence"
+  · simp only [hcvc, if_true]
+    cases hv : kv.2 with
+    | obj step =>
+      simp only [stepCfgOfJ]
+      rw [lookup_setKey_ne _ _ _ _ (by decide), lookup_setKey_ne _ _ _ _ (by decide),
+        lookup_setKey_ne _ _ _ _ (by decide), lookup_setKey_ne _ _ _ _ (by decide),
+        lookup_setKey_ne _ _ _ _ (by decide)]
+    | _ => simp [hv]
+  · simp [hcvc]
+
 /-- **The saved margins are C20's expected margins of the saved pipeline.**  For every configuration
-    `check_conf` accepts, `main` writes a file; its `pipeline` entry is the checked pipeline `M`, and its
-    `margins` entry is `expectedMarginsJ rows cols (stepCfgsOf M)`: cumulative entries = the steps of `M`
-    whose kind cumulates, in order, with the documented margins; non-cumulative entries = the filters;
-    global = per side the larger of the cumulative sum and each non-cumulative one — a function of the
-    saved pipeline and of the shape of the left image the saved input names, and of nothing else.
+    `check_conf` accepts, `main` writes a file; its `pipeline` entry `M` is the checked pipeline with the
+    indicators `run` wrote, and its `margins` entry is `expectedMarginsJ rows cols (stepCfgsOf M)`:
+    cumulative entries = the steps of `M` whose kind cumulates, in order, with the documented margins;
+    non-cumulative entries = the filters; global = per side the larger of the cumulative sum and each
+    non-cumulative one — a function of the saved pipeline and of the shape of the left image the saved
+    input names, and of nothing else.
     Facts about `main` used: `mainFacts.addsMargins` (the entry is the machine's `margins.to_dict()`),
-    `mainFacts.writesRightDisp = false` (the saved `pipeline` / `input` are `check_conf`'s). -/
+    `mainFacts.writesRightDisp = false` (the saved `input` is `check_conf`'s). -/
 theorem saved_margins_expected (files : Files) (fl : MachineFlags) (user kvs P : Dict) (m m' : CState) (out : Dict)
     (hin : Dict.lookup user "input" = some (.obj kvs)) (hpi : Dict.lookup user "pipeline" = some (.obj P))
     (hnd : (Dict.keys kvs).Nodup) (hfresh : C05W.FreshFor fl m) (hwf : Merge.wfDict P = true)
@@ -458,7 +417,7 @@ theorem saved_margins_expected (files : Files) (fl : MachineFlags) (user kvs P :
       sideDict saved "left" = some L ∧ shapeOf files L = some (rows, cols) ∧
       Dict.lookup saved "pipeline" = some (.obj M) ∧
       Dict.lookup saved "margins" = some (expectedMarginsJ rows cols (stepCfgsOf M)) ∧
-      saved = mainSavedDict Pandora.Generated.mainFacts out (expectedMarginsJ rows cols (stepCfgsOf M)) := by
+      saved = mainSavedDict Pandora.Generated.mainFacts (runIndicators out) (expectedMarginsJ rows cols (stepCfgsOf M)) := by
   obtain ⟨L', R', M, hci, hcp, hout⟩ := (C05C.checkConf_ok_iff files fl user kvs P m m' out hin hpi hnd hfresh hwf).1 h
   obtain ⟨_, _, L2, R2, _, _, _, _, _, hform, hshape⟩ := (C17W.checkInputSection_ok_iff files fl kvs _ hnd).1 hci
   simp only [List.cons.injEq, Prod.mk.injEq, JVal.obj.injEq, true_and, and_true] at hshape
@@ -478,18 +437,18 @@ theorem saved_margins_expected (files : Files) (fl : MachineFlags) (user kvs P :
       obtain ⟨⟨⟨⟨hw, hh⟩, _⟩, _⟩, _⟩ := hform
       have hmm := accepted_margins_defined hfresh hwf hcp iml.height iml.width
       rw [← hM] at hmm
-      have hsaved : savedFile files out = some (mainSavedDict Pandora.Generated.mainFacts out
-          (expectedMarginsJ iml.height iml.width (stepCfgsOf M))) := by
-        rw [hout]
-        simp only [savedFile, sideDict, Dict.lookup, if_true, shapeOf, hl, hr, Option.map_some,
+      have hsaved : savedFile files out = some (mainSavedDict Pandora.Generated.mainFacts (runIndicators out)
+          (expectedMarginsJ iml.height iml.width (stepCfgsOf (runPipeline M)))) := by
+        rw [stepCfgsOf_runPipeline, hout]
+        simp only [savedFile, savedConfig, sideDict, Dict.lookup, if_true, shapeOf, hl, hr, Option.map_some,
           show ("input" : String) = "pipeline" ↔ False by decide, show ("left" : String) = "right" ↔ False by decide,
           if_false, ← hw, ← hh, hmm, globalToJ_expected]
-      refine ⟨_, L', M, iml.height, iml.width, hsaved, ?_, by simp [shapeOf, hl], ?_, ?_, rfl⟩
-      · rw [hout]
+      refine ⟨_, L', runPipeline M, iml.height, iml.width, hsaved, ?_, by simp [shapeOf, hl], ?_, ?_, rfl⟩
+      · rw [hout, runIndicators_shape]
         simp [mainSavedDict, source_main_facts.1, source_main_facts.2, sideDict, Dict.lookup, Dict.setKey]
-      · rw [hout]
+      · rw [hout, runIndicators_shape]
         simp [mainSavedDict, source_main_facts.1, source_main_facts.2, Dict.lookup, Dict.setKey]
-      · rw [hout]
+      · rw [hout, runIndicators_shape]
         simp [mainSavedDict, source_main_facts.1, source_main_facts.2, Dict.lookup, Dict.setKey]
 
 /-- `main` writes a configuration file for every configuration `check_conf` accepts (no margin
@@ -502,9 +461,19 @@ theorem main_config_defined (files : Files) (fl : MachineFlags) (user kvs P : Di
   obtain ⟨saved, _, _, _, _, hs, _⟩ := saved_margins_expected files fl user kvs P m m' out hin hpi hnd hfresh hwf h
   exact ⟨saved, by simp [mainConfig, h, hs]⟩
 
+/-- the shapes and the margins `savedFile` reads do not see what `run` wrote: the file `main` would write
+    from the configuration after `run` is the file it writes from `check_conf`'s result -/
+theorem savedFile_runIndicators (files : Files) (I : JVal) (M : Dict) :
+    savedFile files (runIndicators [("input", I), ("pipeline", .obj M)]) =
+      savedFile files [("input", I), ("pipeline", .obj M)] := by
+  rw [runIndicators_shape]
+  simp only [savedFile, savedConfig, sideDict, Dict.lookup, if_true,
+    show ("input" : String) = "pipeline" ↔ False by decide, if_false, runIndicators_shape, runPipeline_idem,
+    machineMargins, stepCfgsOf_runPipeline]
+
 /-- **`cfg/config.json` is a fix-point of `main`** (C05 ∘ C17 ∘ C19 ∘ C20): the file `main` writes for an
     accepted configuration, given to `main` again (fresh machine), is accepted and written again
-    unchanged — same input section, same steps and parameters, same margins. -/
+    unchanged — same input section, same steps and parameters, same indicators, same margins. -/
 theorem main_config_fixpoint (files : Files) (fl : MachineFlags) (user kvs P : Dict) (m : CState) (saved : Dict)
     (hin : Dict.lookup user "input" = some (.obj kvs)) (hpi : Dict.lookup user "pipeline" = some (.obj P))
     (hnd : C17W.NodupSection kvs) (hfresh : C05W.FreshFor fl m) (hwf : Merge.wfDict P = true)
@@ -521,10 +490,13 @@ theorem main_config_fixpoint (files : Files) (fl : MachineFlags) (user kvs P : D
     rw [hs] at h
     simp only [Option.some.injEq] at h
     subst h
-    obtain ⟨m2', h2⟩ := saved_config_replays files fl user kvs P m m' out hin hpi hnd hfresh hwf hc
+    obtain ⟨m2', h2⟩ := saved_config_replays_run files fl user kvs P m m' out hin hpi hnd hfresh hwf hc
       Pandora.Generated.mainFacts source_main_facts.1 (expectedMarginsJ _ _ (stepCfgsOf _)) m2 hfresh2
     rw [← heq] at h2
-    simp [mainConfig, h2, hs]
+    obtain ⟨L', R', M, _, _, hout⟩ := (C05C.checkConf_ok_iff files fl user kvs P m m' out hin hpi hnd.1 hfresh hwf).1 hc
+    have : savedFile files (runIndicators out) = savedFile files out := by
+      rw [hout]; exact savedFile_runIndicators files _ M
+    simp [mainConfig, h2, this, hs]
 
 /-- the margin of a step reads the image shape only for a bilateral filter -/
 theorem documentedMargin_shape (k : Machine.Kind) (c : StepCfg) (rows cols rows' cols' step : Int)
@@ -561,13 +533,15 @@ theorem expectedMarginsJ_shape_independent (rows cols rows' cols' : Int) (p : Li
 
 /-! ### 5. Non-vacuity: a concrete run -/
 
-/-- a configuration with a bilateral filter (its margin reads the image shape: 5 × 6 pixels,
-    `int(3 · 6 + 1) = 19`, hence 5), a median filter after the validation, defaults everywhere -/
+/-- a configuration with a suffixed confidence step (`run` writes its indicator `".amb"` into the saved
+    pipeline), a bilateral filter (its margin reads the image shape: 5 × 6 pixels, `int(3 · 6 + 1) = 19`,
+    hence 5), a median filter after the validation, defaults everywhere -/
 def exUser : Dict :=
   [("input", .obj [("left", .obj [("img", .str "l.tif"), ("disp", .list [.int (-3), .int 2])]),
                    ("right", .obj [("img", .str "r.tif")])]),
    ("pipeline", .obj [
      ("matching_cost", .obj [("matching_cost_method", .str "sad"), ("window_size", .int 7)]),
+     ("cost_volume_confidence.amb", .obj [("confidence_method", .str "ambiguity")]),
      ("disparity", .obj [("disparity_method", .str "wta")]),
      ("filter", .obj [("filter_method", .str "bilateral")]),
      ("validation", .obj [("validation_method", .str "cross_checking_accurate")]),
@@ -582,10 +556,15 @@ def exMargins : JVal :=
           ("filter.after", .obj [("left", .int 3), ("up", .int 3), ("right", .int 3), ("down", .int 3)])]),
         ("global margins", .obj [("left", .int 5), ("up", .int 5), ("right", .int 5), ("down", .int 5)])]
 
-/-- `main` on the concrete configuration: the saved file ends with the expected margins, and `main` on
-    the saved file writes it again -/
+/-- `main` on the concrete configuration: the saved file ends with the expected margins, holds the
+    indicator `run` wrote, and `main` on the saved file writes it again -/
 example :
     (mainConfig C17.fs machineFlags exUser {}).bind (fun s => Dict.lookup s "margins") = some exMargins ∧
+    ((mainConfig C17.fs machineFlags exUser {}).bind (fun s => Dict.lookup s "pipeline")).bind
+      (fun p => match p with
+        | .obj M => (Dict.lookup M "cost_volume_confidence.amb").bind fun st =>
+            match st with | .obj d => Dict.lookup d "indicator" | _ => none
+        | _ => none) = some (.str ".amb") ∧
     ((mainConfig C17.fs machineFlags exUser {}).bind (fun s => mainConfig C17.fs machineFlags s {})) =
       mainConfig C17.fs machineFlags exUser {} ∧
     (mainConfig C17.fs machineFlags exUser {}).isSome = true := by
